@@ -177,6 +177,10 @@ FAMILIES = [
     (['DEFINE PRIO 10 <V> + <V> AS RUN add WITH $0 , $1 END END DEFINE', 'DEFINE PRIO 10 <V> - <V> AS RUN sub WITH $0 , $1 END END DEFINE',
       'DEFINE PRIO 10 <V> * <V> AS RUN mul WITH $1 , $0 END END DEFINE'],
      ['a', 'b', '-', '+', '*', '1', 'x', ':='], ['x - y + RUN f WITH z END', 'a * b + 1 - a', 'a - RUN g WITH 1 END * b']),
+    # keywords in a pattern match by kind: every spelling of DO / END / LOOP / WHILE must match the pattern token
+    (['DEFINE TWICE DO <P> END AS $0 ; $0 END DEFINE', 'DEFINE REPEAT <ID> LOOP <P> END AS loop $0 do $1 end END DEFINE'],
+     ['TWICE', 'REPEAT', 'DO', 'do', 'END', 'end', 'LOOP', 'loop'],
+     ['TWICE do a := 1 end', 'TWICE Do a := 1 End ; TWICE DO a := 1 END', 'REPEAT n Loop a := 1 end', 'REPEAT n loop TWICE do b := 2 End END']),
     (['DEFINE <P> ; AS $0 END DEFINE', 'DEFINE a AS ok END DEFINE'],
      ['a', 'b', ':=', '1', ';', 'x', 'STOP', 'ok'], ['a ; a', 'x := 1 ; a']),
     (['DEFINE PRIO 2 x : <P> ; ; AS $0 END DEFINE', 'DEFINE PRIO 2 <ID> : = AS $0 := END DEFINE'],
@@ -294,6 +298,12 @@ def explore(ctx, res, replay=None):
                      'DEFINE PRIO 3 a AS b END DEFINE\nDEFINE PRIO 2 b AS c END DEFINE\nDEFINE PRIO 1 c AS a END DEFINE', 'DEFINE grow AS grow grow END DEFINE', 'DEFINE ping AS pong END DEFINE\nDEFINE pong AS ping END DEFINE', 'DEFINE one AS two END DEFINE\nDEFINE two AS three END DEFINE']
             for d, s in zip(loops, ('ping', 'grow nop', 'a x', 'grow', 'ping', 'one one')):
                 add('selfrep', [d], s, list(range(1, 21)) + [1024])
+            # a runaway macro that leaves a numbered temporary at every step, next to definitions on other priority levels:
+            # after budget b no temporary may carry a pass number >= b
+            for d in ('DEFINE PRIO 10 grow <ID> AS #0 := 0 ; grow $0 END DEFINE\nDEFINE PRIO 20 clear <ID> AS $0 := 0 END DEFINE\nDEFINE PRIO 5 other AS x END DEFINE',
+                      'DEFINE grow <ID> AS #0 := 0 ; grow $0 END DEFINE',
+                      'DEFINE PRIO 3 ping <ID> AS #1 := $0 ; pong $0 END DEFINE\nDEFINE PRIO 8 pong <ID> AS #1 := $0 ; ping $0 END DEFINE'):
+                add('counted', [d], 'grow x1' if 'grow' in d else 'ping x1', list(range(1, 13)))
     iout = ctx.run_impl(cases, timeout_case=30)
     mout = ctx.run_model(cases, timeout_case=30)
     res.rule = {
@@ -444,6 +454,17 @@ def explore(ctx, res, replay=None):
                 # growth: at most b rewriting steps
                 if len(ap[b][0]) > len(xtoks) + b * max([len(m['repl']) for m in macros] + [1]) * max(1, len(xtoks)) * 4:
                     res.violations.append(dict(case, what='growth', budget=b, detail='stream grew beyond the step bound'))
+        if pid == 'C11' and kind == 'counted':
+            for b in budgets:
+                worst = -1
+                for t_ in ap[b][0]:
+                    nm_ = vlib.unhex_s(t_[3])
+                    m_ = re.search(r'_\(M(\d+)\)$', nm_)
+                    if t_[0] == 1 and nm_.startswith('#') and m_:
+                        worst = max(worst, int(m_.group(1)))
+                if worst >= b:
+                    res.violations.append(dict(case, what='steps', budget=b, detail='with budget %d a temporary of pass %d is in the stream: more rewriting steps than the budget' % (b, worst)))
+                    break
         # ---------------- C10: temporaries of a step are fresh ----------------
         if pid == 'C10':
             # provenance: a renamed temporary keeps the position of the #n token of its macro body, so equal names at
